@@ -1,4 +1,4 @@
-//go:build verif_all || verif_c19
+//go:build verif_all || verif_c19 || verif_c20
 
 package driver
 
